@@ -28,9 +28,16 @@ type userMethod struct {
 	index    int
 }
 
+// Declared, when set by the harness, lists per method name the types that declare that method themselves
+// (the generator of the subject knows); without it promoted methods are told apart by their parameter type.
+var Declared map[string]map[reflect.Type]bool
+
 func findUserMethod(n reflect.Type, name string, resKind reflect.Kind) (reflect.Method, bool, bool) {
 	// n is a named non-pointer type
 	if n.Name() == "" || n.Kind() == reflect.Ptr {
+		return reflect.Method{}, false, false
+	}
+	if Declared != nil && !Declared[name][n] {
 		return reflect.Method{}, false, false
 	}
 	pt := reflect.PtrTo(n)
@@ -42,12 +49,40 @@ func findUserMethod(n reflect.Type, name string, resKind reflect.Kind) (reflect.
 	if ft.NumIn() != 2 || ft.NumOut() != 1 || ft.Out(0).Kind() != resKind {
 		return reflect.Method{}, false, false
 	}
-	// methods promoted from embedded fields take the embedded type: they are not N's own methods
-	if ft.In(1) != n && ft.In(1) != pt {
+	// methods promoted from embedded fields take the embedded type: they are not N's own methods.
+	// An interface parameter (Equal(interface{})) is handed a *N, as goderive does.
+	if ft.In(1) != n && ft.In(1) != pt && !(ft.In(1).Kind() == reflect.Interface && pt.AssignableTo(ft.In(1)) && (Declared != nil || ownMethod(n, name))) {
 		return reflect.Method{}, false, false
 	}
-	paramPtr := ft.In(1).Kind() == reflect.Ptr
+	paramPtr := ft.In(1).Kind() == reflect.Ptr || ft.In(1).Kind() == reflect.Interface
 	return m, true, paramPtr
+}
+
+// ownMethod reports whether name is declared on N or *N itself rather than promoted from an embedded field.
+func ownMethod(n reflect.Type, name string) bool {
+	if n.Kind() != reflect.Struct {
+		return true
+	}
+	for i := 0; i < n.NumField(); i++ {
+		f := n.Field(i)
+		if !f.Anonymous {
+			continue
+		}
+		ft := f.Type
+		if ft.Kind() == reflect.Ptr {
+			ft = ft.Elem()
+		}
+		if _, ok := reflect.PtrTo(ft).MethodByName(name); ok {
+			return false
+		}
+	}
+	return true
+}
+
+// valueReceiver reports whether the method is in the method set of N itself (declared with a value receiver).
+func valueReceiver(n reflect.Type, name string) bool {
+	_, ok := n.MethodByName(name)
+	return ok
 }
 
 // callUser2 calls a.Method(b) for addressable-or-copyable struct values a, b of named type n.
@@ -151,6 +186,10 @@ func eq(a, b reflect.Value, o EqOpt, root bool) bool {
 			}
 		} else if m, ok, pp := findUserMethod(t.Elem(), "Equal", reflect.Bool); ok {
 			if pp {
+				if a.IsNil() && valueReceiver(t.Elem(), "Equal") {
+					// a value receiver cannot be called through a nil pointer: nil-ness decides
+					return b.IsNil()
+				}
 				// a.Equal(b) on the pointers themselves (user method handles nil)
 				return m.Func.Call([]reflect.Value{ptrView(a), ptrView(b)})[0].Bool()
 			}
